@@ -492,40 +492,138 @@ theorem pre_isOk_of_late {o : Opt} {sh : Sh p} {w : FW p} {f : Fault}
   exact ⟨_, rfl⟩
 
 section stages
+variable (o : Opt) (sh : Sh p) (rw : Bool) (s0 : Store p) (w : FW p)
+
+@[simp] theorem tcpStage_g : (tcpStage rw w).g = w.g := by unfold tcpStage; split <;> rfl
+@[simp] theorem tcpStage_h : (tcpStage rw w).h = w.h := by unfold tcpStage; split <;> rfl
+@[simp] theorem tcpStage_run : (tcpStage rw w).run = w.run := by unfold tcpStage; split <;> rfl
+@[simp] theorem tcpStage_pending : (tcpStage rw w).pending = w.pending := by unfold tcpStage; split <;> rfl
+@[simp] theorem tcpStage_reloadOwed : (tcpStage rw w).reloadOwed = w.reloadOwed := by unfold tcpStage; split <;> rfl
+@[simp] theorem tcpStage_rewriteOwed : (tcpStage rw w).rewriteOwed = w.rewriteOwed := by unfold tcpStage; split <;> rfl
+@[simp] theorem tcpStage_mainHosts : (tcpStage rw w).mainHosts = w.mainHosts := by unfold tcpStage; split <;> rfl
+@[simp] theorem tcpStage_bm : (tcpStage rw w).bm = w.bm := by unfold tcpStage; split <;> rfl
+@[simp] theorem tcpStage_pcI : (tcpStage rw w).pcI = w.pcI := by unfold tcpStage; split <;> rfl
+@[simp] theorem tcpStage_pmI : (tcpStage rw w).pmI = w.pmI := by unfold tcpStage; split <;> rfl
+@[simp] theorem tcpStage_pcD : (tcpStage rw w).pcD = w.pcD := by unfold tcpStage; split <;> rfl
+@[simp] theorem tcpStage_pmD : (tcpStage rw w).pmD = w.pmD := by unfold tcpStage; split <;> rfl
+@[simp] theorem tcpStage_tcp_want : (tcpStage rw w).tcp.want = w.tcp.want := by unfold tcpStage; split <;> rfl
+@[simp] theorem tcpStage_tcp_changed : (tcpStage rw w).tcp.changed = w.tcp.changed := by unfold tcpStage; split <;> rfl
+@[simp] theorem tcpStage_tcp_main : (tcpStage rw w).tcp.main = w.tcp.main := by unfold tcpStage; split <;> rfl
+@[simp] theorem tcpStage_tcp_crt : (tcpStage rw w).tcp.crt = w.tcp.crt := by unfold tcpStage; split <;> rfl
+@[simp] theorem flagStage_g : (flagStage rw s0 w).g = w.g := by unfold flagStage; split <;> rfl
+@[simp] theorem flagStage_h : (flagStage rw s0 w).h = w.h := by unfold flagStage; split <;> rfl
+@[simp] theorem flagStage_run : (flagStage rw s0 w).run = w.run := by unfold flagStage; split <;> rfl
+@[simp] theorem flagStage_pending : (flagStage rw s0 w).pending = w.pending := by unfold flagStage; split <;> rfl
+@[simp] theorem flagStage_reloadOwed : (flagStage rw s0 w).reloadOwed = w.reloadOwed := by unfold flagStage; split <;> rfl
+@[simp] theorem flagStage_rewriteOwed : (flagStage rw s0 w).rewriteOwed = w.rewriteOwed := by unfold flagStage; split <;> rfl
+@[simp] theorem flagStage_mainHosts : (flagStage rw s0 w).mainHosts = w.mainHosts := by unfold flagStage; split <;> rfl
+@[simp] theorem flagStage_bm : (flagStage rw s0 w).bm = w.bm := by unfold flagStage; split <;> rfl
+@[simp] theorem flagStage_pcD : (flagStage rw s0 w).pcD = w.pcD := by unfold flagStage; split <;> rfl
+@[simp] theorem flagStage_pmD : (flagStage rw s0 w).pmD = w.pmD := by unfold flagStage; split <;> rfl
+@[simp] theorem flagStage_tcp_want : (flagStage rw s0 w).tcp.want = w.tcp.want := by unfold flagStage; split <;> rfl
+@[simp] theorem flagStage_tcp_changed : (flagStage rw s0 w).tcp.changed = w.tcp.changed := by unfold flagStage; split <;> rfl
+@[simp] theorem flagStage_tcp_main : (flagStage rw s0 w).tcp.main = w.tcp.main := by unfold flagStage; split <;> rfl
+@[simp] theorem flagStage_tcp_map : (flagStage rw s0 w).tcp.map = w.tcp.map := by unfold flagStage; split <;> rfl
+@[simp] theorem flagStage_tcp_crt : (flagStage rw s0 w).tcp.crt = w.tcp.crt := by unfold flagStage; split <;> rfl
+@[simp] theorem bmStage_g : (bmStage o rw s0 w).g = w.g := by unfold bmStage; split <;> rfl
+@[simp] theorem bmStage_h : (bmStage o rw s0 w).h = w.h := by unfold bmStage; split <;> rfl
+@[simp] theorem bmStage_run : (bmStage o rw s0 w).run = w.run := by unfold bmStage; split <;> rfl
+@[simp] theorem bmStage_pending : (bmStage o rw s0 w).pending = w.pending := by unfold bmStage; split <;> rfl
+@[simp] theorem bmStage_reloadOwed : (bmStage o rw s0 w).reloadOwed = w.reloadOwed := by unfold bmStage; split <;> rfl
+@[simp] theorem bmStage_rewriteOwed : (bmStage o rw s0 w).rewriteOwed = w.rewriteOwed := by unfold bmStage; split <;> rfl
+@[simp] theorem bmStage_mainHosts : (bmStage o rw s0 w).mainHosts = w.mainHosts := by unfold bmStage; split <;> rfl
+@[simp] theorem bmStage_pcI : (bmStage o rw s0 w).pcI = w.pcI := by unfold bmStage; split <;> rfl
+@[simp] theorem bmStage_pmI : (bmStage o rw s0 w).pmI = w.pmI := by unfold bmStage; split <;> rfl
+@[simp] theorem bmStage_pcD : (bmStage o rw s0 w).pcD = w.pcD := by unfold bmStage; split <;> rfl
+@[simp] theorem bmStage_pmD : (bmStage o rw s0 w).pmD = w.pmD := by unfold bmStage; split <;> rfl
+@[simp] theorem bmStage_tcp_want : (bmStage o rw s0 w).tcp.want = w.tcp.want := by unfold bmStage; split <;> rfl
+@[simp] theorem bmStage_tcp_changed : (bmStage o rw s0 w).tcp.changed = w.tcp.changed := by unfold bmStage; split <;> rfl
+@[simp] theorem bmStage_tcp_main : (bmStage o rw s0 w).tcp.main = w.tcp.main := by unfold bmStage; split <;> rfl
+@[simp] theorem bmStage_tcp_map : (bmStage o rw s0 w).tcp.map = w.tcp.map := by unfold bmStage; split <;> rfl
+@[simp] theorem bmStage_tcp_crt : (bmStage o rw s0 w).tcp.crt = w.tcp.crt := by unfold bmStage; split <;> rfl
+@[simp] theorem crtStage_g : (crtStage  w).g = w.g := by unfold crtStage; split <;> rfl
+@[simp] theorem crtStage_h : (crtStage  w).h = w.h := by unfold crtStage; split <;> rfl
+@[simp] theorem crtStage_run : (crtStage  w).run = w.run := by unfold crtStage; split <;> rfl
+@[simp] theorem crtStage_pending : (crtStage  w).pending = w.pending := by unfold crtStage; split <;> rfl
+@[simp] theorem crtStage_reloadOwed : (crtStage  w).reloadOwed = w.reloadOwed := by unfold crtStage; split <;> rfl
+@[simp] theorem crtStage_rewriteOwed : (crtStage  w).rewriteOwed = w.rewriteOwed := by unfold crtStage; split <;> rfl
+@[simp] theorem crtStage_mainHosts : (crtStage  w).mainHosts = w.mainHosts := by unfold crtStage; split <;> rfl
+@[simp] theorem crtStage_bm : (crtStage  w).bm = w.bm := by unfold crtStage; split <;> rfl
+@[simp] theorem crtStage_pcI : (crtStage  w).pcI = w.pcI := by unfold crtStage; split <;> rfl
+@[simp] theorem crtStage_pmI : (crtStage  w).pmI = w.pmI := by unfold crtStage; split <;> rfl
+@[simp] theorem crtStage_pcD : (crtStage  w).pcD = w.pcD := by unfold crtStage; split <;> rfl
+@[simp] theorem crtStage_pmD : (crtStage  w).pmD = w.pmD := by unfold crtStage; split <;> rfl
+@[simp] theorem crtStage_tcp_want : (crtStage  w).tcp.want = w.tcp.want := by unfold crtStage; split <;> rfl
+@[simp] theorem crtStage_tcp_changed : (crtStage  w).tcp.changed = w.tcp.changed := by unfold crtStage; split <;> rfl
+@[simp] theorem crtStage_tcp_main : (crtStage  w).tcp.main = w.tcp.main := by unfold crtStage; split <;> rfl
+@[simp] theorem crtStage_tcp_map : (crtStage  w).tcp.map = w.tcp.map := by unfold crtStage; split <;> rfl
+
+@[simp] theorem tcpStage_tcp_map : (tcpStage rw w).tcp.map = if tcpWrites rw w then w.tcp.want else w.tcp.map := by
+  unfold tcpStage; split <;> simp_all
+@[simp] theorem crtStage_tcp_crt : (crtStage w).tcp.crt = if w.tcp.want != 0 then w.tcp.want else w.tcp.crt := by
+  unfold crtStage; split <;> simp_all
+@[simp] theorem flagStage_pcI (x : Fin p) : (flagStage rw s0 w).pcI x =
+    (((backChanged s0 || rw) && (visOf rw s0 x).isSome) || w.pcI x) := by
+  unfold flagStage mapFlags
+  by_cases h : (backChanged s0 || rw) = true
+  · simp [h]
+  · have h' : (backChanged s0 || rw) = false := by simpa using h
+    simp [h']
+@[simp] theorem flagStage_pmI (x : Fin p) : (flagStage rw s0 w).pmI x =
+    (((backChanged s0 || rw) && (visOf rw s0 x).isSome) || w.pmI x) := by
+  unfold flagStage mapFlags
+  by_cases h : (backChanged s0 || rw) = true
+  · simp [h]
+  · have h' : (backChanged s0 || rw) = false := by simpa using h
+    simp [h']
+@[simp] theorem bmStage_bm (x : Fin p) : (bmStage o rw s0 w).bm x =
+    if backChanged s0 || rw then
+      (match visOf rw s0 x with
+        | some c => if o.needACL (conf c) then some (conf c) else w.bm x
+        | none => w.bm x)
+    else w.bm x := by
+  unfold bmStage bmWrite
+  by_cases h : (backChanged s0 || rw) = true
+  · simp only [h, if_true]; cases visOf rw s0 x <;> rfl
+  · have h' : (backChanged s0 || rw) = false := by simpa using h
+    simp [h']
+
+end stages
+
+section w4
 variable (o : Opt) (sh : Sh p) (rw : Bool) (w : FW p)
 
-local macro "w4_cases" : tactic => `(tactic|
-  (by_cases h1 : tcpWrites rw (w0Of w) = true <;> by_cases h2 : (backChanged (s0Of sh rw w) || rw) = true <;>
-    by_cases h3 : (w.tcp.want != 0) = true <;>
-    simp [w4Of, crtStage, bmStage, flagStage, tcpStage, w0Of, shrinkFlags, mapFlags, bmWrite, h1, h2, h3]))
-
-theorem w4Of_g : (w4Of o sh rw w).g = w.g := by w4_cases
-theorem w4Of_h : (w4Of o sh rw w).h = hWrite (hs0Of rw w) := by w4_cases
-theorem w4Of_run : (w4Of o sh rw w).run = w.run := by w4_cases
-theorem w4Of_pending : (w4Of o sh rw w).pending = w.pending := by w4_cases
-theorem w4Of_reloadOwed : (w4Of o sh rw w).reloadOwed = w.reloadOwed := by w4_cases
-theorem w4Of_rewriteOwed : (w4Of o sh rw w).rewriteOwed = true := by w4_cases
-theorem w4Of_mainHosts : (w4Of o sh rw w).mainHosts = w.mainHosts := by w4_cases
-theorem w4Of_tcp_want : (w4Of o sh rw w).tcp.want = w.tcp.want := by w4_cases
-theorem w4Of_tcp_changed : (w4Of o sh rw w).tcp.changed = w.tcp.changed := by w4_cases
-theorem w4Of_tcp_main : (w4Of o sh rw w).tcp.main = w.tcp.main := by w4_cases
-theorem w4Of_tcp_map : (w4Of o sh rw w).tcp.map = if tcpWrites rw (w0Of w) then w.tcp.want else w.tcp.map := by w4_cases
-theorem w4Of_tcp_crt : (w4Of o sh rw w).tcp.crt = if w.tcp.want != 0 then w.tcp.want else w.tcp.crt := by w4_cases
+theorem w4Of_g : (w4Of o sh rw w).g = w.g := by simp [w4Of, w0Of, shrinkFlags]
+theorem w4Of_h : (w4Of o sh rw w).h = hWrite (hs0Of rw w) := by simp [w4Of]
+theorem w4Of_run : (w4Of o sh rw w).run = w.run := by simp [w4Of, w0Of, shrinkFlags]
+theorem w4Of_pending : (w4Of o sh rw w).pending = w.pending := by simp [w4Of, w0Of, shrinkFlags]
+theorem w4Of_reloadOwed : (w4Of o sh rw w).reloadOwed = w.reloadOwed := by simp [w4Of, w0Of, shrinkFlags]
+theorem w4Of_rewriteOwed : (w4Of o sh rw w).rewriteOwed = true := by simp [w4Of, w0Of]
+theorem w4Of_mainHosts : (w4Of o sh rw w).mainHosts = w.mainHosts := by simp [w4Of, w0Of, shrinkFlags]
+theorem w4Of_tcp_want : (w4Of o sh rw w).tcp.want = w.tcp.want := by simp [w4Of, w0Of, shrinkFlags]
+theorem w4Of_tcp_changed : (w4Of o sh rw w).tcp.changed = w.tcp.changed := by simp [w4Of, w0Of, shrinkFlags]
+theorem w4Of_tcp_main : (w4Of o sh rw w).tcp.main = w.tcp.main := by simp [w4Of, w0Of, shrinkFlags]
+theorem w4Of_tcp_map : (w4Of o sh rw w).tcp.map = if tcpWrites rw w then w.tcp.want else w.tcp.map := by
+  simp [w4Of, w0Of, shrinkFlags, tcpWrites]
+theorem w4Of_tcp_crt : (w4Of o sh rw w).tcp.crt = if w.tcp.want != 0 then w.tcp.want else w.tcp.crt := by
+  simp [w4Of, w0Of, shrinkFlags]
 theorem w4Of_bm (x : Fin p) : (w4Of o sh rw w).bm x =
     if backChanged (s0Of sh rw w) || rw then
       (match visOf rw (s0Of sh rw w) x with
         | some c => if o.needACL (conf c) then some (conf c) else w.bm x
         | none => w.bm x)
     else w.bm x := by
-  w4_cases <;> (cases visOf rw (s0Of sh rw w) x <;> rfl)
+  simp [w4Of, w0Of, shrinkFlags]
 theorem w4Of_pmI (x : Fin p) : (w4Of o sh rw w).pmI x =
     (((backChanged (s0Of sh rw w) || rw) && (visOf rw (s0Of sh rw w) x).isSome) ||
-      (if matched w.g.w.store x then w.pmD x else w.pmI x)) := by w4_cases
+      (if matched w.g.w.store x then w.pmD x else w.pmI x)) := by
+  simp [w4Of, w0Of, shrinkFlags]
 theorem w4Of_pcI (x : Fin p) : (w4Of o sh rw w).pcI x =
     (((backChanged (s0Of sh rw w) || rw) && (visOf rw (s0Of sh rw w) x).isSome) ||
-      (if matched w.g.w.store x then w.pcD x else w.pcI x)) := by w4_cases
+      (if matched w.g.w.store x then w.pcD x else w.pcI x)) := by
+  simp [w4Of, w0Of, shrinkFlags]
 
-end stages
+end w4
 
 /-! ### the dynamic update -/
 
